@@ -357,6 +357,40 @@ impl RemoteMap {
     }
 }
 
+/// Pass-through accessors for the external verification harness.
+#[cfg(feature = "verif-hooks")]
+impl RemoteMap {
+    pub(crate) fn verif_new(
+        metrics: Arc<SocketMetrics>,
+        local_direct_addrs: n0_watcher::Direct<BTreeSet<DirectAddr>>,
+        address_lookup: address_lookup::AddressLookupServices,
+        shutdown_token: CancellationToken,
+        path_selector: Arc<dyn PathSelector>,
+        span: Span,
+    ) -> Self {
+        Self::new(
+            metrics,
+            local_direct_addrs,
+            address_lookup,
+            shutdown_token,
+            path_selector,
+            span,
+        )
+    }
+
+    pub(crate) async fn verif_resolve_remote(
+        &mut self,
+        addr: EndpointAddr,
+        tx: oneshot::Sender<Result<(), AddressLookupFailed>>,
+    ) {
+        self.resolve_remote(addr, tx).await
+    }
+
+    pub(crate) async fn verif_cleanup(&mut self) -> EndpointId {
+        self.cleanup().await
+    }
+}
+
 impl Tasks {
     /// Starts a new remote state actor and returns a handle and a sender.
     ///
